@@ -347,13 +347,5 @@ fn tx_msgpack_e2e_map() {
 	assert!(written_is(&[0x81, 0xa1, b'k', 0xc0]));
 }
 
-/// Attribution at nesting depth 3 with a concrete shape, [ { bool: [ bool ] } ], every failure point of either
-/// side symbolic (the unscripted depth-2 harness already costs minutes; a concrete shape keeps depth 3 affordable).
-#[kani::proof]
-#[kani::unwind(10)]
-fn tx_error_attribution_scripted_depth3() {
-	let script: [u8; 8] = [3, 1, 4, 1, 1, 3, 1, 1];
-	unsafe { SCRIPT_ON = true; let mut i = 0; while i < script.len() { SCRIPT[i] = script[i]; i += 1; } }
-	let r = transcode(MockSer, MockDe { depth: 3 });
-	check_transcode_outcome(r);
-}
+// (A scripted depth-3 attribution harness -- concrete shape [ { bool: [ bool ] } ], all failure points symbolic -- was
+// tried for the thorough tier and dropped: > 50 min / 12 GB.)
